@@ -45,8 +45,8 @@ CFG = {
                   "(the recursive render without the root window), zorder_is_spec, render_clip, render_last_wins, paint_structure, child_window_clip. "
                   "Round 3: src_guards_strict now also states that each Text/RichText draw function allocates NewSurface(size.Width, size.Height) (interpreted arguments), "
                   "facts_ellipsis_cond. Witness/F39-F42, F114 prove that the uint16 / non-strict / un-clipped variants (the code before the fixes) fail. "
-                  "ROUND 4: Props.C14Body (27 theorems) - the bodies of NewSurface, NewSubSurface, AddChild, WriteCell, Fill, HasUnboundedWidth/Height, Surface.render, Center.Draw, "
-                  "Text/RichText findContainerSize (soft and hard), Text/RichText drawSoftwrap and Text/RichText Draw (hard wrap, with the ellipsis branch), REGENERATED from the source each run (Gen/SurfaceBodies) and EXECUTED by the statement "
+                  "ROUND 4: Props.C14Body (30 theorems) - the bodies of NewSurface, NewSubSurface, AddChild, WriteCell, Fill, HasUnboundedWidth/Height, Surface.render, Center.Draw, "
+                  "Text/RichText findContainerSize (soft and hard), Text/RichText drawSoftwrap, Text/RichText Draw (hard wrap, with the ellipsis branch), Button.Draw and TextField.Draw, REGENERATED from the source each run (Gen/SurfaceBodies) and EXECUTED by the statement "
                   "interpreter Model/SurfExec, equal the hand-written model for all inputs (*_body_eq_model; render with the recursive calls being the model - the model is the fixed point of the "
                   "body - and with the receiver's Children left sorted IN PLACE); composed: the executed drawSoftwrap / Draw = Layout.drawText in the soft- / hard-wrap mode of the source. "
                   "Props.C14Bounds: paint_is_painters_algorithm (every own cell, none skipped, then the children SORTED by ZIndex, each in its window), own_cells_all_painted, sorted_children, "
@@ -55,14 +55,14 @@ CFG = {
                   "sorting only for positive z, and sorting a copy all differ from the model on concrete trees.",
     "level_note": "Round 4 tie: Gen/SurfaceBodies.lean (go/ast -> tree syntax of Model/SurfLang, statement by statement; unknown shapes degrade to .unknown, bodies_fully_recognised) is EXECUTED by "
                   "Model/SurfExec in the body_eq_model theorems: a rewrite of those bodies that keeps the meaning keeps the theorems (self-test H1: five bodies rewritten at once), one that changes it "
-                  "fails the theorem of that function (seeded C14-m3: centerDraw_body_eq). The syntactic pins of these functions were removed (facts_surface keeps TextField only; C14Facts keeps Button, "
-                  "TextField, hardLines, App.Run's frame clause). Limits: loop proofs name variables by position (a rewrite that adds or removes a local breaks the SCRIPT, not the "
+                  "fails the theorem of that function (seeded C14-m3: centerDraw_body_eq). The syntactic pins of these functions were removed (facts_surface is gone; C14Facts keeps "
+                  "hardLines and App.Run's frame clause); the driver also EXECUTES the bodies beside the hand model (ws, and draw with any widget but Dynamic at the root) and compares with the real code. Limits: loop proofs name variables by position (a rewrite that adds or removes a local breaks the SCRIPT, not the "
                   "statement); calls of NewSurface/AddChild/WriteCell/Fill inside other bodies are the model functions (each proved equal to its own body); scanners, Characters, the child's Draw and "
                   "recursive render are parameters of the interpreter. Tie (rounds 1-3): Gen/SurfaceFacts.lean regenerated each run. Used by the model: int vs uint16 length and index, >= vs > guards, which window App.Run "
                   "renders into (renderRoot), which widgets have the bounded-constraint panic, the size arguments of every NewSurface call incl. the four Text/RichText "
                   "functions (TextMode.sz; round 3), the conjuncts of the ellipsis condition of the two hard-wrap loops (EllAtom; round 3: the model followed the F316 "
                   "fix without an edit). Pinned by theorems that stop compiling when the source changes "
-                  "(src_arith_exact, src_guards_strict, facts_surface, facts_run_render, facts_layout, widget_inventory_complete, and one Props.C14Facts theorem "
+                  "(src_arith_exact, src_guards_strict, facts_run_render, facts_layout, widget_inventory_complete, and one Props.C14Facts theorem "
                   "per function for the alpha-normalised statement skeletons of Surface.render, App.Run's frame clause, Text/RichText Draw/drawSoftwrap/"
                   "findContainerSize, Center.Draw, Button.Draw, TextField.Draw, text.hardLines; the printer normalises a<b/b>a, x++/x+=1/x=x+1 and the operand order of "
                   "==, && and || between pure operands, so those rewrites do not alarm). Validated by correspondence only: that the Lean transcription of those bodies "
